@@ -15,7 +15,6 @@ import (
 	"html/template"
 	"io"
 	"log"
-	"os"
 	"regexp"
 	"sort"
 	"strconv"
@@ -733,9 +732,7 @@ type c18case struct {
 
 func runC18(c *Ctx) {
 	log.SetOutput(io.Discard)
-	if os.Getenv("VERIF_REPLAY") == "" {
-		defer c18LibraryValues(c)
-	}
+	defer c18LibraryValues(c)
 	c.rule = "value trees as in C17 (depth<=4; eager/lazy/appended lists; maps in every representation; ints, floats, bools, strings and keys of legal XML characters with a pool of markup fragments: < > & ' \" ]]> comment/CDATA/entity look-alikes, blanks, =, CR/LF/TAB, non-name characters) plus Format (string, map, closure, table-format styles; cell; colspan), Link and File wrappers, list sizes around maxListSize; each tree goes through the real XML exporter and through ToHtml (inline and class styles); encoding/xml reads the bytes back and the forest is compared with the structure the shape dictates (property predicate); bytes, class list and token stream are compared with the Lean model and its reference decoder; non-trivial = distinct tree with a container and a string/key/style containing a markup or white-space character"
 	c.assume = append(c.assume,
 		"scalar-to-string conversions (ToString, strconv, NewFormattedFloat.Unicode, base64, byteSize) are oracles supplied by the harness",
